@@ -1,5 +1,7 @@
 package main
 
+import "strings"
+
 func init() {
 	campaigns["C06"] = func(e *env) error {
 		e.rep.Rule = "cases = (converter, method, arguments): converters whose extend function (taking a struct, int or string; optionally a context argument, the converter itself, an error result) must be used for its pair at every position: direct, behind pointers, in slices, maps, nested structs and slices of pointers to structs, with 0-1 context parameters in either argument position and all three error-wrapping modes; every custom function stamps its identity and its arguments into its result, so the executed result shows which function ran with which arguments; compared with Gv.Gen + Gv.Eval. non-trivial = every call; distinct = (converter, method, arguments)"
@@ -18,9 +20,85 @@ func init() {
 		if err := runFamilies(e, "C06", "extend-pkgs", famExtendPkgs, b, per/2, 5, nil, nil); err != nil {
 			return err
 		}
+		if err := aliasSpellingPinned(e); err != nil {
+			return err
+		}
 		if err := runExtSel(e); err != nil {
 			return err
 		}
 		return runExtList(e)
 	}
+}
+
+// aliasSpellingPinned: `byte` / `uint8` and `rune` / `int32` are identical Go types, so an extend function declared with one
+// spelling is the custom implementation of the pair written with the other one.  The oracle is the property itself (the
+// function's recognisable result must appear), not the model: the model mirrors the code's text-keyed tables.
+func aliasSpellingPinned(e *env) error {
+	e.rep.Rule += "; pinned: extend functions over []uint8 / int32 (and []byte / rune) used for fields spelled []byte / rune (and []uint8 / int32): the function's recognisable result must appear in the converted value"
+	kb := &k2Batch{Tag: "alias-spelling-pinned", Convs: map[string]string{}, ValModes: 4, Share: 0}
+	kb.Types = `type AlIn struct {
+	Raw  []byte
+	Code rune
+}
+type AlOut struct {
+	Raw  []byte
+	Code rune
+}
+type AlIn2 struct {
+	Raw  []uint8
+	Code int32
+}
+type AlOut2 struct {
+	Raw  []uint8
+	Code int32
+}
+`
+	kb.Extra = `func AlUpper8(b []uint8) []uint8 { return []uint8("STAMPED") }
+func AlNext32(r int32) int32      { return 7777 }
+func AlUpperB(b []byte) []byte    { return []byte("STAMPED") }
+func AlNextR(r rune) rune         { return 7777 }
+`
+	add := func(name, ext, in, out string) {
+		kb.Convs[name] = "// goverter:converter\n// goverter:extend " + ext + "\ntype " + name + " interface {\n\tConvert(source " + in + ") " + out + "\n}\n\n"
+		kb.Order = append(kb.Order, name)
+	}
+	add("AlSameSpelling", "AlUpperB AlNextR", "AlIn", "AlOut")
+	add("AlSameSpelling2", "AlUpper8 AlNext32", "AlIn2", "AlOut2")
+	add("AlOtherSpelling", "AlUpper8 AlNext32", "AlIn", "AlOut")
+	add("AlOtherSpelling2", "AlUpperB AlNextR", "AlIn2", "AlOut2")
+	res, err := runK2(e, "c06alias", []*k2Batch{kb})
+	if err != nil {
+		return err
+	}
+	for _, be := range res.BuildErrors {
+		e.rep.Violation("generated-code-does-not-compile", map[string]any{"build_output": be}, false)
+	}
+	e.rep.Eval(len(res.Calls))
+	stamped := `(b "83") (b "84") (b "65") (b "77") (b "80") (b "69") (b "68")`
+	seen := map[string]bool{}
+	for _, c := range res.Calls {
+		seen[c.Converter] = true
+		e.rep.Nontrivial(c.Converter + strings.Join(c.Values, " "))
+		e.rep.Count("alias-spelling.call")
+		implUses := strings.Contains(c.Impl, stamped) && strings.Contains(c.Impl, `(f "Code" (b "7777"))`)
+		modelUses := strings.Contains(c.Model, `(f "Raw" (tok "Al`) && strings.Contains(c.Model, `(f "Code" (tok "Al`)
+		if implUses != modelUses {
+			e.rep.Violation("", map[string]any{"call": c, "broken": "correspondence C06: the compiled generated code vs Gv.Gen + Gv.Eval disagree on whether the extend functions are called"}, false)
+			continue
+		}
+		if !implUses {
+			class := ""
+			if strings.HasPrefix(c.Converter, "AlOtherSpelling") {
+				class = "D25-extend-alias-spelling"
+			}
+			e.rep.Violation(class, map[string]any{"call": c, "expected": "Raw = the bytes of \"STAMPED\" and Code = 7777 (the results of the configured extend functions)",
+				"broken": "C06: an extend function exists for the pair but the automatic conversion was generated"}, false)
+		}
+	}
+	for _, n := range kb.Order {
+		if !seen[n] {
+			e.rep.Violation("", map[string]any{"converter": kb.Convs[n], "generation": res.GenErrors, "broken": "C06: a converter whose extend functions cover its pairs was not generated"}, false)
+		}
+	}
+	return nil
 }
